@@ -52,6 +52,8 @@ FUNCS = [
     Fn('Quantity', '__eq__', [('self', 'qty'), ('other', 'qty')], 'bool', 'qty_eq_impl'),
     Fn('Quantity', '_compare', [('self', 'qty'), ('other', 'qty'), ('op', 'cmpop')], 'bool',
        'qty_cmp_impl'),
+    Fn('Unit', '_compare', [('self', 'unit'), ('other', 'unit'), ('op', 'cmpop')], 'bool',
+       'unit_cmp_impl'),
     Fn('Quantity', '__add__', [('self', 'qty'), ('other', 'qty')], 'qty', 'qty_add_impl'),
     Fn('Quantity', '__sub__', [('self', 'qty'), ('other', 'qty')], 'qty', 'qty_sub_impl'),
     # converter.py: a TableConverter is its conversion table
@@ -446,8 +448,9 @@ def find_method(tree, cls, name):
 
 
 PRELUDE = '''(* GENERATED by /verif/translate/qlayer.py from src/quantity/__init__.py
-   (Unit.__eq__, Unit._get_factor, Quantity.equiv_amount, convert, __eq__,
-   _compare, __add__, __sub__) and src/quantity/converter.py
+   (Unit.__eq__, Unit._get_factor, Unit._compare, Quantity.equiv_amount, convert,
+   __eq__, _compare, __add__, __sub__; the wrappers __lt__ / __le__ / __gt__ / __ge__ of
+   both classes are checked to pass the operator of their name) and src/quantity/converter.py
    (TableConverter._get_factor, Converter.__call__).
    Do not edit; rewritten on every run. *)
 From QV Require Import Model.Num Model.Rounding Model.Quantity.
@@ -470,6 +473,21 @@ FIRST_ANSWER = '''Fixpoint first_answer (accept : option Q -> bool) (cs : list t
 '''
 
 
+def check_cmp_wrappers(tree):
+    """__lt__/__le__/__gt__/__ge__ of Unit and Quantity: `return self._compare(other, operator.xx)`
+    with the operator of the same name"""
+    for cls in ('Unit', 'Quantity'):
+        for op in ('lt', 'le', 'gt', 'ge'):
+            m = find_method(tree, cls, f'__{op}__')
+            body = [x for x in m.body
+                    if not (isinstance(x, ast.Expr) and isinstance(x.value, ast.Constant))]
+            want = ast.dump(ast.parse(f"self._compare(other, operator.{op})").body[0].value)
+            if not (len(body) == 1 and isinstance(body[0], ast.Return)
+                    and ast.dump(body[0].value) == want
+                    and [a.arg for a in m.args.args] == ['self', 'other']):
+                raise Unsupported(f"{cls}.__{op}__ is not `return self._compare(other, operator.{op})`")
+
+
 def generate(path):
     """path: src/quantity/__init__.py; converter.py is taken from the same directory"""
     import os
@@ -481,6 +499,8 @@ def generate(path):
         fp = os.path.join(os.path.dirname(path), fn.file)
         if fp not in trees:
             trees[fp] = ast.parse(open(fp, encoding='utf-8').read())
+            if fn.file == '__init__.py':
+                check_cmp_wrappers(trees[fp])
         m = find_method(trees[fp], fn.cls, fn.name)
         names = [a.arg for a in m.args.args]
         if names != [p for p, _ in fn.params] or m.args.vararg or m.args.kwarg \
